@@ -15,7 +15,9 @@
 EXTENDS Errors, JValue, Json, IOUtils, SequencesExt
 
 N == CHOOSE n \in 0..16 : ToString(n) = IOEnv.N
-Alpha == {97, 233, 8364, 128512, NL, 13, 11, 12, 133, 8232}      \* only LF starts a new line: CR, VT, FF, NEL, LINE SEPARATOR are characters of the line
+(* only LF starts a new line: CR, VT, FF, NEL, LINE SEPARATOR are characters of the line.  ALPHA = "small": the five characters that differ
+   in their UTF-8 length and the newline (longer strings stay enumerable) *)
+Alpha == IF "ALPHA" \in DOMAIN IOEnv /\ IOEnv.ALPHA = "small" THEN {97, 233, 8364, 128512, NL} ELSE {97, 233, 8364, 128512, NL, 13, 11, 12, 133, 8232}
 
 CoordCases(zzdummy) ==
   LET all == SetToSeq(UNION {[1..n -> Alpha] : n \in 0..N})
